@@ -44,6 +44,8 @@ func init() {
 		simsFor[p] = []simWeight{{"lib", 1}}
 	}
 	simsFor["C05"] = []simWeight{{"lib", 1}}
+	register(c13Sim{})
+	simsFor["C13"] = []simWeight{{"c13", 1}}
 	register(c04Sim{})
 	simsFor["C04"] = []simWeight{{"c04", 1}}
 }
@@ -141,6 +143,10 @@ func runOne(t *testing.T, prop, tier string, seed uint64, sim Sim, c interface{}
 			sim.Run(e, c)
 		})
 	}()
+	for _, f := range e.After {
+		f()
+	}
+	e.After = nil
 	for s, n := range cover {
 		if n > 0 {
 			st.Sites[s] += int64(n)
